@@ -48,6 +48,12 @@ def _pattern_test(subject, pat, binds=None):
     if isinstance(pat, ast.MatchValue):
         return ast.Compare(subject, [ast.Eq()], [pat.value])
     if isinstance(pat, ast.MatchSingleton):
+        if isinstance(pat.value, bool) and (isinstance(
+                subject, ast.Compare) or (isinstance(
+                    subject, ast.UnaryOp) and isinstance(
+                        subject.op, ast.Not))):
+            # the subject is the outcome of a test: `case True` is the test
+            return subject if pat.value else ast.UnaryOp(ast.Not(), subject)
         return ast.Compare(subject, [ast.Is()], [ast.Constant(pat.value)])
     if isinstance(pat, ast.MatchAs) and pat.pattern is None and \
             pat.name is None:
